@@ -62,7 +62,7 @@ Definition method_str (m : method) : bytes :=
 Record uri := { full : bytes; p_start : nat; p_end : nat }.
 
 Record request := {
-  meth : method; target : uri; version : N; hdrs : headers; buf_offset : nat
+  q_meth : method; q_target : uri; q_version : N; q_hdrs : headers; q_offset : nat
 }.
 
 Definition parse_method (buf : bytes) : res (method * bytes) :=
@@ -94,20 +94,20 @@ Definition is_valid_uri_byte (b : byte) : bool := existsb (Byte.eqb b) URI_VALID
 
 (* step 2 of parse_uri: the scan for the first '/' that is not part of "://" *)
 Inductive scan2 := S2Err | S2Path (i : nat) | S2End (i : nat).
-Fixpoint step2 (l : bytes) (i : nat) {struct l} : scan2 :=
+Fixpoint step2 (seen : bool) (l : bytes) (i : nat) {struct l} : scan2 :=
   match l with
   | [] => S2End i
   | b :: r =>
       match b with
       | x3a =>                                   (* ':' *)
           match r with
-          | x2f :: x2f :: r' => step2 r' (i + 3)
-          | _ => step2 r (i + 1)                 (* ':' is a valid uri byte *)
+          | x2f :: x2f :: r' => if seen then step2 seen r (i + 1) else step2 true r' (i + 3)
+          | _ => step2 seen r (i + 1)            (* ':' is a valid uri byte *)
           end
       | x2f => S2Path i
       | x20 => S2End i
       | x3f => S2End i
-      | _ => if is_valid_uri_byte b then step2 r (i + 1) else S2Err
+      | _ => if is_valid_uri_byte b then step2 seen r (i + 1) else S2Err
       end
   end.
 
@@ -128,12 +128,12 @@ Definition parse_uri (buf : bytes) : res (uri * bytes) :=
       | None => Err EEof
       end
     else
-    match (if Byte.eqb first x2f then S2Path 0 else step2 buf 0) with
+    match (if Byte.eqb first x2f then S2Path 0 else step2 false buf 0) with
     | S2Err => Err EStatus
     | S2End i =>                                  (* no slash: authority-form, or absolute-form without path *)
         let j := i + match_uri_vectored (skipn i buf) in
         match nth_error buf j with
-        | Some x20 => finish_uri buf j 0 0
+        | Some x20 => if Nat.eqb j 0 then Err EStatus else finish_uri buf j 0 0     (* empty target *)
         | Some _ => Err EStatus
         | None => Err EEof
         end
@@ -235,7 +235,7 @@ Definition parse_request (buf : bytes) : res request :=
   | x0d :: x0a :: r4 =>
       '(hs, r5) <- parse_headers r4 ;;
       off <- offset_of buf r5 ;;
-      Ok {| meth := m; target := u; version := v; hdrs := hs; buf_offset := off |}
+      Ok {| q_meth := m; q_target := u; q_version := v; q_hdrs := hs; q_offset := off |}
   | [] => Err EEof
   | [x0d] => Err EEof
   | _ => Err EStatus
@@ -321,7 +321,10 @@ Definition uri_query (u : uri) : res (option bytes) :=
   end.
 
 Definition uri_authority (u : uri) : res (option bytes) :=
-  match find_sub SCHEME_SEP (full u) with
+  match (match find_sub SCHEME_SEP (full u) with
+         | Some i => if Nat.eqb (p_start u) 0 || Nat.leb (i + 3) (p_start u) then Some i else None
+         | None => None
+         end) with
   | Some scheme_i =>
       let start := scheme_i + 3 in
       if Nat.eqb (p_start u) 0 then
